@@ -425,19 +425,118 @@ def fam_branch_end(arg):
     return acc.result()
 
 
+# ---------------------------------------------------------------- recursion: locals of the caller survive the inner call
+
+def _v(n):
+    return ('var', n)
+
+
+def _n(x):
+    return ('num', x)
+
+
+def _log(e):
+    return ('expr', ('call', 'systemLog', [e]))
+
+
+REC_PROGRAMS = {
+    'fact': [('func', 'fact', ['nn'], False, [
+        ('if', [(('bin', '<', _v('nn'), _n(2)), [('return', _n(1))])], None),
+        ('assign', 'sub', ('call', 'fact', [('bin', '-', _v('nn'), _n(1))])),
+        ('return', ('bin', '*', _v('nn'), _v('sub')))])],
+    'fib': [('func', 'fib', ['nn'], False, [
+        ('if', [(('bin', '<', _v('nn'), _n(2)), [('return', _v('nn'))])], None),
+        ('assign', 'aa', ('call', 'fib', [('bin', '-', _v('nn'), _n(1))])),
+        ('assign', 'bb', ('call', 'fib', [('bin', '-', _v('nn'), _n(2))])),
+        _log(('bin', '+', ('str', 'fib'), _v('nn'))),
+        ('return', ('bin', '+', _v('aa'), _v('bb')))])],
+    'walk': [('func', 'walk', ['depth'], False, [
+        _log(('bin', '+', ('str', 'in'), _v('depth'))),
+        ('for', 'vv', 'ii', ('call', 'pk', []), [
+            ('if', [(('bin', '<', _v('depth'), _n(2)), [('assign', 'got', ('call', 'walk', [('bin', '+', _v('depth'), _n(1))]))])], None),
+            _log(('bin', '+', ('bin', '+', ('bin', '+', ('str', 'v'), _v('depth')), ('str', ':')), ('bin', '+', ('bin', '+', _v('vv'), ('str', ':')), _v('ii'))))]),
+        _log(('bin', '+', ('str', 'out'), _v('depth'))),
+        ('return', _v('depth'))])],
+    'evenodd': [('func', 'isEven', ['nn'], False, [
+        ('if', [(('bin', '==', _v('nn'), _n(0)), [('return', ('str', 'even'))])], None),
+        ('assign', 'res', ('call', 'isOdd', [('bin', '-', _v('nn'), _n(1))])),
+        _log(('bin', '+', ('str', 'e'), _v('nn'))),
+        ('return', _v('res'))]),
+                ('func', 'isOdd', ['nn'], False, [
+                    ('if', [(('bin', '==', _v('nn'), _n(0)), [('return', ('str', 'odd'))])], None),
+                    ('assign', 'res', ('call', 'isEven', [('bin', '-', _v('nn'), _n(1))])),
+                    _log(('bin', '+', ('str', 'o'), _v('nn'))),
+                    ('return', _v('res'))])],
+    'countdown': [('func', 'down', ['nn'], False, [
+        ('assign', 'kk', _n(0)),
+        ('while', ('bin', '<', _v('kk'), _v('nn')), [
+            ('assign', 'kk', ('bin', '+', _v('kk'), _n(1))),
+            ('if', [(('call', 'cc', []), [('assign', 'inner', ('call', 'down', [('bin', '-', _v('nn'), _n(1))]))])], None),
+            _log(('bin', '+', ('bin', '+', ('str', 'k'), _v('nn')), ('bin', '+', ('str', '/'), _v('kk'))))]),
+        ('return', _v('kk'))])],
+}
+REC_ENTRY = {'fact': 'fact', 'fib': 'fib', 'walk': 'walk', 'evenodd': 'isEven', 'countdown': 'down'}
+REC_SITES = ('top', 'in-loop', 'surplus-and-missing')
+
+
+def build_rec(case):
+    name, arg, site = case['name'], case['arg'], case['site']
+    defs = REC_PROGRAMS[name]
+    entry = REC_ENTRY[name]
+    call = ('call', entry, [_n(arg)])
+    if site == 'top':
+        main = [('assign', 'rr', call), _log(('bin', '+', ('str', 'rr='), _v('rr')))]
+    elif site == 'in-loop':
+        main = [('for', 'ww', None, ('call', 'arrayNew', [_n(1), _n(2)]), [('assign', 'rr', call), _log(('bin', '+', ('str', 'rr='), _v('rr')))])]
+    else:
+        # a surplus argument is ignored, a missing one is null - also when a global has the parameter's name
+        main = [('assign', 'nn', _n(7)), ('assign', 'depth', _n(7)),
+                ('assign', 'rr', ('call', entry, [_n(arg), ('str', 'surplus')])), _log(('bin', '+', ('str', 'rr='), _v('rr')))]
+        if name in ('fact', 'fib'):     # with a null argument these two terminate at once; the others would recurse for ever
+            main += [('assign', 'r0', ('call', entry, [])), _log(('bin', '+', ('str', 'r0='), _v('r0')))]
+    return defs + main
+
+
+def check_rec(case, acc):
+    return check_program(build_rec(case), case, acc, case['bound'])
+
+
+def rec_cases(tier):
+    out = []
+    for name in REC_PROGRAMS:
+        for arg in range(0, 5 if tier == 'quick' else 7):
+            for site in REC_SITES:
+                if name in ('fact', 'fib', 'evenodd') and site == 'surplus-and-missing' and arg > 2:
+                    continue
+                out.append({'name': name, 'arg': arg, 'site': site, 'bound': 2 if tier == 'quick' else 3})
+    return out
+
+
+def fam_rec(arg):
+    acc = Acc('recursion')
+    for case in arg:
+        acc.cases += 1
+        check_rec(case, acc)
+    if arg:
+        acc.sample(dict(arg[0], source=ast.source(build_rec(arg[0]))))
+    return acc.result()
+
+
 def families(tier):
     load_impl()
     from ..engine.shard import split  # pylint: disable=import-outside-toplevel
+    rc = rec_cases(tier)
     be = [{'spec': sp, 'bound': 2 if tier == 'quick' else 3} for sp in chains.branch_end_specs()]
     sc = sibling_cases(tier)
     fc = func_cases(tier)
     return [chain_family(tier), small_family(tier), truth_family(tier),
             Family('branch_end', fam_branch_end, split(be, 48), 'an if chain inside a loop where every branch independently ends in nothing / break / continue / return; 3 loop kinds x 4 chain shapes x endings x 2 scopes x 3 surroundings', expected=len(be)),
+            Family('recursion', fam_rec, split(rc, 16), 'recursive functions that read their own locals / loop variables after the inner call returns (factorial, fibonacci, tree walk over a tape-chosen array, mutual recursion, loop + recursion) x argument values x call sites (top level, inside a loop, with surplus and missing arguments)', expected=len(rc)),
             Family('siblings', fam_siblings, split(sc, 64), 'ordered pairs (thorough: all pairs and depth-1 triples) of depth <= 2 chain bodies side by side in one block, at global scope, inside a function, inside a loop; deviation bound 2', expected=len(sc)),
             Family('funcs', fam_funcs, split(fc, 48), 'three functions: 5 body kinds each x call graph {chain, diamond, bounded recursion} x definition site {top level, inside an if block, inside a loop body}', expected=len(fc))]
 
 
-_CHECKS = {'chain': check_chain, 'small': check_small, 'truth': check_truth, 'siblings': check_siblings, 'funcs': check_funcs, 'branch_end': check_branch_end}
+_CHECKS = {'recursion': check_rec, 'chain': check_chain, 'small': check_small, 'truth': check_truth, 'siblings': check_siblings, 'funcs': check_funcs, 'branch_end': check_branch_end}
 
 
 def replay(family, case):
